@@ -518,6 +518,22 @@ def oracle_c07(tables, seed, tier, deep):
         dist["stream-" + parts[0]] += 1
         if not ok:
             viol.append({"site": "stream:" + parts[0], "detail": "multi-line run with the hostile line at position 3 did not process the other lines as usual", "input_hex": hx(b), "status": r[:60]})
+    # whole program: a plain log (file argument without .gz, and stdin) whose FIRST line is binary junk starting with the gzip
+    # magic bytes: that line is skipped like any other non-JSON line, the others are processed as usual
+    import tempfile, shutil
+    wd = tempfile.mkdtemp(prefix="verif_c07_")
+    try:
+        for junk in (b"\x1f\x8b\x08\x00 not really gzip", b"\x1f\x8b"):
+            blob = junk + b"\n" + good[0] + b"\n" + good[2] + b"\n"
+            fp = os.path.join(wd, "plain.log")
+            open(fp, "wb").write(blob)
+            for how, (rc, so, se) in (("file", run_cli(["redact", fp], cwd=wd)), ("stdin", run_cli(["redact"], stdin=blob, cwd=wd))):
+                dist["cli-gzip-magic-first-line:%s:%d" % (how, rc)] += 1
+                if rc != 0 or so != exp_good[0] + exp_good[2]:
+                    viol.append({"site": "crash:gzip-magic-first-line:" + how, "detail": "a plain log (%s) whose first line starts with 1f 8b: exit %d, %d bytes of output (expected the two good lines), stderr %r" % (how, rc, len(so), se[-150:]),
+                                 "input_hex": hx(blob[:200]), "cfg": "-"})
+    finally:
+        shutil.rmtree(wd, ignore_errors=True)
     # whole program: a line far beyond the reader's limit (millions of nesting levels) between two good lines:
     # the only allowed outcome is the explicit error with a non-zero status after the first line - never a crash
     deep_line = b"[" * 6000000
@@ -1266,9 +1282,14 @@ def oracle_c06(tables, seed, tier, deep):
                 for cpos in cuts + [len(data)]:
                     fh.write(gzip.compress(data[prev:cpos]))
                     prev = cpos
+            # the same text WITHOUT its final newline, as a plain file and as a .gz (the last line is still a line)
+            fplain_nf, fgz_nf = os.path.join(work, "in%dnf.log" % it), os.path.join(work, "in%dnf.log.gz" % it)
+            open(fplain_nf, "wb").write(data[:-1])
+            with gzip.open(fgz_nf, "wb") as fh:
+                fh.write(data[:-1])
             got = {}
             for rep in range(2):
-                for ch_in in ("file", "gz", "gzmulti", "stdin"):
+                for ch_in in ("file", "gz", "gzmulti", "stdin", "file-nofinal", "gz-nofinal"):
                     for ch_out in ("stdout", "outfile"):
                         args = ["redact"] + cfg.cli()
                         stdin = None
@@ -1278,6 +1299,10 @@ def oracle_c06(tables, seed, tier, deep):
                             args.append(fgz)
                         elif ch_in == "gzmulti":
                             args.append(fgzm)
+                        elif ch_in == "file-nofinal":
+                            args.append(fplain_nf)
+                        elif ch_in == "gz-nofinal":
+                            args.append(fgz_nf)
                         else:
                             stdin = data
                         of = os.path.join(work, "out_%d_%s_%s_%d" % (it, ch_in, ch_out, rep))
